@@ -36,7 +36,44 @@ def gen_case(r, big=False):
         # a policy in a namespace that has neither workloads nor a Namespace object
         W['netpols'].append({'ns': 'nsempty', 'name': 'lonely', 'podSelector': {}, 'policyTypes': ['Ingress'],
                              'ingress': [{'from': [{'podSelector': {'matchLabels': {'app': 'x'}}}]}]})
-    elif x < 0.6:
+    elif x < 0.72:
+        # the refinement boundary: a rule whose selectors an existing workload satisfies on its label equalities, with or without
+        # an expression (on the namespace or on the pod side) that the existing workload does or does not satisfy
+        nsd = next((n for n in W['namespaces'] if n['name'] == wl['ns']), None)
+        if nsd is None:
+            nsd = {'name': wl['ns'], 'labels': {}, 'obj': True}
+            W['namespaces'].append(nsd)
+        nsd['obj'] = True
+        if not nsd['labels']:
+            nsd['labels'] = {'team': 't1'}
+        if not wl['labels']:
+            wl['labels'] = {'app': 'a'}
+        nk = r.choice(sorted(nsd['labels']))
+        pk = r.choice(sorted(wl['labels']))
+        nsel = {'matchLabels': {nk: nsd['labels'][nk]}}
+        psel = {'matchLabels': {pk: wl['labels'][pk]}}
+        y = r.random()
+        other = {'key': 'zone', 'operator': r.choice(['Exists', 'DoesNotExist'])}
+        fails = {'key': nk, 'operator': 'NotIn', 'values': [nsd['labels'][nk], 'zz']}
+        if y < 0.3:
+            nsel['matchExpressions'] = [r.choice([other, fails])]
+        elif y < 0.5:
+            psel['matchExpressions'] = [r.choice([other, {'key': pk, 'operator': 'NotIn', 'values': [wl['labels'][pk]]}])]
+        d = r.choice(['ingress', 'egress'])
+        key = 'from' if d == 'ingress' else 'to'
+        tgt = r.choice(W['workloads'])
+        W['netpols'].append({'ns': tgt['ns'], 'name': 'refine', 'podSelector': {}, 'policyTypes': ['Ingress' if d == 'ingress' else 'Egress'],
+                             d: [{key: [{'namespaceSelector': nsel, 'podSelector': psel}], 'ports': [{'port': r.choice(gen.PORTS)}]}]})
+    elif x < 0.8:
+        # an entire-cluster connection that misses exactly one port number, next to a selector rule with a named port
+        d = r.choice(['ingress', 'egress'])
+        key = 'from' if d == 'ingress' else 'to'
+        hole = r.choice([80, 1, 65535, 8080])
+        ports = ([{'port': 1, 'endPort': hole - 1}] if hole > 1 else []) + ([{'port': hole + 1, 'endPort': 65535}] if hole < 65535 else [])
+        W['netpols'].append({'ns': wl['ns'], 'name': 'hole', 'podSelector': {}, 'policyTypes': ['Ingress' if d == 'ingress' else 'Egress'],
+                             d: [{key: [{'namespaceSelector': {}}], 'ports': ports},
+                                 {key: [{'podSelector': {'matchLabels': {'app': 'x'}}}], 'ports': [{'port': r.choice(gen.NAMES)}] + (ports[:1] if r.random() < 0.5 else [])}]})
+    elif x < 0.88:
         # selectors that differ only in where a character sits
         W['netpols'].append({'ns': wl['ns'], 'name': 'keys', 'podSelector': {}, 'policyTypes': ['Ingress'],
                              'ingress': [{'from': [{'podSelector': {'matchLabels': {'app': 'ab', 'c': 'd'}}}], 'ports': [{'port': 80}]},
